@@ -82,6 +82,10 @@ func c18Names(rng *rand.Rand, colon bool) []string {
 		fam = append(fam, s+":1.dat", s+":", "d:"+s+".dat")
 	}
 	if rng.Intn(3) == 0 {
+		// characters that mean something to a formatter or a pattern matcher
+		fam = append(fam, s+"%20x.nc", s+"_100%.csv", "a%sb"+s+".dat", s+"%d.log", s+"%", "%"+s, s+"\\d+.dat", s+"[1].dat", s+"(1).dat", s+"+.dat", s+"$.dat", s+"*.dat", s+"?.dat")
+	}
+	if rng.Intn(3) == 0 {
 		// white space at the edges of a name (and the twin name without it)
 		fam = append(fam, " "+s+".dat", "\t"+s+".dat", "\u00a0"+s+".dat", s+".dat ", "  "+s, s+"\u2003")
 	}
